@@ -22,6 +22,10 @@ Request line:  `id enc <op> key=value …`
                  compressed blind-rotation key, all GGSWs; answer as cmp_ggsw over all GGSWs in order
     lwe_dec      b nl [resb= ressize=] body=<ints> xa=<raw words>: `decompress_lwe` (with its base2k/size assertions; receiver radix / limbs
                  default to the object's) of (body, Source::new(seed) words)
+    keygen       layout=<gglwe|ggsw|ksk|atk|tsk|g2g|lksk|g2l|l2g|brk> bits n b kxe size rank rank_in dnum dsize p sk skin sklwein sklweout
+                 pt=<polys> xa=<raw words of source_xa> es=<error polys in loop order>: the STANDARD key routines (`gglwe_encrypt_sk`,
+                 `ggsw_encrypt_sk` and the wrappers of Model/Core/EncMat.lean, entered with a dirty temporary); answer: all cells in loop
+                 order `cols/cols/…` (the objects of the `…_encrypt_sk_wellformed` theorems of Props/C01.lean)
     bundle_order layout=<cbt|bdd> ksg=<0|1> gal=<Galois elements, any order> atkw atke brkw brke tskw tske ksgw ksge kslw ksle
                  (`…w` mask words, `…e` error polynomials one sub-key of that kind consumes): answer
                  `<name:first mask word:mask words:first error polynomial:error polynomials;…>` in encryption order
@@ -183,6 +187,40 @@ def handle (ts : List String) : String :=
       match Core.decompressLweRust resB resSize b (kvNat ts "nl") body (natsOf ts "xa") with
       | none => "panic"
       | some c => showCol c
+    | "keygen" =>
+      let rank := kvNat ts "rank"
+      let rankIn := kvNat ts "rank_in"
+      let dnum := kvNat ts "dnum"
+      let dsize := kvNat ts "dsize"
+      let sk := kvPolys ts "sk"
+      let skIn := kvPolys ts "skin"
+      let lweIn := kvInts ts "sklwein"
+      let lweOut := kvInts ts "sklweout"
+      let xa := natsOf ts "xa"
+      let es := kvPolys ts "es"
+      let tmp := dirtyTmp n size
+      let showOne (r : Option (List (Nat × List Col) × List Nat × List Poly)) : String :=
+        match r with
+        | none => "panic"
+        | some (cells, _, _) => if cells.isEmpty then "-" else "/".intercalate (cells.map (fun c => showCols c.2))
+      let showMany (r : Option (List (List (Nat × List Col)) × List Nat × List Poly)) : String :=
+        match r with
+        | none => "panic"
+        | some (subs, _, _) =>
+          let cells := subs.flatten
+          if cells.isEmpty then "-" else "/".intercalate (cells.map (fun c => showCols c.2))
+      match (kv ts "layout").getD "" with
+      | "gglwe" => showOne (Core.gglweEncryptSkT tmp bits b n size kxe rank rankIn dnum dsize (kvPolys ts "pt") sk xa es)
+      | "ggsw" => showOne (Core.ggswEncryptSkT tmp bits b n size kxe rank dnum dsize ((kvPolys ts "pt").getD 0 []) sk xa es)
+      | "ksk" => showOne (Core.glweSwitchingKeyEncryptSk tmp bits b n size kxe rank rankIn dnum dsize skIn sk xa es)
+      | "atk" => showOne (Core.glweAutomorphismKeyEncryptSk tmp bits b n size kxe rank dnum dsize (kvInt ts "p") sk xa es)
+      | "tsk" => showOne (Core.glweTensorKeyEncryptSk tmp bits b n size kxe rank dnum dsize sk xa es)
+      | "g2g" => showMany (Core.gglweToGgswKeyEncryptSk tmp bits b n size kxe rank dnum dsize sk xa es)
+      | "lksk" => showOne (Core.lweSwitchingKeyEncryptSk tmp bits b n size kxe dnum lweIn lweOut xa es)
+      | "g2l" => showOne (Core.glweToLweKeyEncryptSk tmp bits b n size kxe rankIn dnum lweOut skIn xa es)
+      | "l2g" => showOne (Core.lweToGlweKeyEncryptSk tmp bits b n size kxe rank dnum lweIn sk xa es)
+      | "brk" => showMany (Core.blindRotationKeyEncryptSk tmp bits b n size kxe rank dnum lweIn sk xa es)
+      | _ => "bad-layout"
     | "bundle_order" =>
       let gal := kvInts ts "gal"
       let order := if (kv ts "layout").getD "" == "bdd" then Core.bddOrder (kvNat ts "ksg" != 0) gal else Core.cbtOrder gal
